@@ -16,7 +16,7 @@ PROPS = {
         props_v="Props/C08.v",
         corr_v=["Corr/CheckC08.v"],
         n_quick=110, n_thorough=3000,
-        explanation="Theorems: cleanEdges specification and normal form; every editing/extraction operation maps well-formed lists to well-formed lists (induction over arbitrary operation sequences); merge/remove/extract results normalised; RemoveNodes exactness. Tie: one-step refinement of the real NodeList against Model/Graph.v on random histories.",
+        explanation="Theorems: cleanEdges specification and normal form; every editing/extraction operation maps well-formed lists to well-formed lists (induction over arbitrary operation sequences); merge/remove/extract results normalised; RemoveNodes exactness; a pool machine over several live lists (an operation's list argument is another live list or the receiver itself) keeps every list of the pool well-formed over any history and changes only the slot it writes (frame). Tie: one-step refinement of the real NodeList against Model/Graph.v on random single-list histories, on random histories over a pool of three live lists (every live list observed after every step: the written one against the model's step, the others against the frame) and on every history of three (thorough: four) menu operations over two fixed pools (search support; a sample goes to the evaluator). One genuine defect repaired (b355a2b: RelateNodeListAtID shared the argument's root slice).",
         assumptions=[GRAPH_NOTE],
     ),
     "C09": dict(
@@ -65,7 +65,7 @@ PROPS = {
         props_v="Props/C13.v",
         corr_v=["Corr/CheckC13.v"],
         n_quick=110, n_thorough=3000,
-        explanation="Theorems: Node/Edge/NodeList equality are equivalence relations; equality <-> checksum equality under injectivity of SHA-256 (premise); invariance under every permutation of set-valued attributes, edge targets, nodes, edges, roots (via: insertion sort is canonical on multisets, with transitivity of the byte order proved); every schema field contributes to the flat string; scalar attributes render injectively; external-reference hashes covered. The unrestricted 'equal only if every attribute equal' is refuted by vm_compute witnesses (K1 separator collisions, K6 shadowed duplicate) and kept visible. Tie: the model's flat strings are compared byte for byte with the implementation's (verif export) on random nodes/edges/persons/external references; oracle mutates one attribute at a time by reflection over the schema.",
+        explanation="Theorems: Node/Edge/NodeList equality are equivalence relations; equality <-> checksum equality under injectivity of SHA-256 (premise); invariance under every permutation of set-valued attributes, edge targets, nodes, edges, roots (via: insertion sort is canonical on multisets, with transitivity of the byte order proved); every schema field contributes to the flat string; scalar attributes render injectively; external-reference hashes covered; edge equality is discriminating in full on separator-free values (equal edges have the same source, type name and targets up to order). The unrestricted 'equal only if every attribute equal' is refuted by vm_compute witnesses (K1 separator collisions, K6 shadowed duplicate) and kept visible. Tie: the model's flat strings are compared byte for byte with the implementation's (verif export) on random nodes/edges/persons/external references; oracle mutates one attribute at a time by reflection over the schema.",
         assumptions=["modelled: flatString of Node/Edge/Person/ExternalReference, NodeList.Equal (Model/Flat.v); SHA-256 is a Section variable assumed injective where a theorem says so", "render-level injectivity for collection-valued attributes is NOT proved (false without separator-freeness: K1); covered by the single-attribute mutation oracle only"],
     ),
     "C14": dict(
